@@ -92,7 +92,8 @@ def domination_monitor(ctx):
                              "n": n // nchunks, "strata": STRATA, "top": 12,
                              "peaks": [[0.0, 0.5, 0.5], [0.0, -0.5, 0.5], [0.5, 0.0, 0.5], [0.5, 0.5, 0.0]],
                              "floor": ABS_FLOOR, "configs": [s["ini"] for s in ss],
-                             "deepcopy": c % 2 == 1})       # every other chunk through copy.deepcopy of the potentials
+                             # every other chunk through copy.deepcopy of the potentials, every fourth through dill
+                             "deepcopy": ("dill" if c % 4 == 3 else c % 2 == 1)})
     outs = C.run_driver_parallel(ctx, "c04_thinning", jobs, timeout=1700)
     res = {"neval": 0, "npos": 0, "violations": [], "max_ratio": 0.0, "max_at": None, "hist": [0] * 22,
            "residues": 0, "max_residue": 0.0, "combos": [], "jobs": len(jobs), "max_clean": 0.0, "max_clean_at": None,
@@ -240,7 +241,8 @@ def gen_case(rng, fam, L, npr):
     if rng.random() < 0.3:
         umodes.append(["tie", rng.choice([-3, 2, 5])])
     return {"state": state, "expo": expo, "umodes": umodes, "use_charge": rng.random() < 0.9,
-            "deep": rng.random() < 0.5,      # the handler is copy.deepcopy'd after initialisation (Tagger.initialize)
+            # the handler is copy.deepcopy'd after initialisation (Tagger.initialize) or restored through dill (resume.py)
+            "deep": rng.choice([False, False, True, "dill"]),
             "lifting": rng.choice(["ratio", "inside_first"]), "row_u": f2b(rng.random())}
 
 
@@ -299,7 +301,8 @@ def oracle(cfg, case, res):
                 return "confirmation probability is not max(0, true rate)/bounding rate of the configured potential: " \
                        "the handler%s obtained the %s rate %r, a freshly constructed potential of the same " \
                        "configuration gives %r at the same separation" % (
-                           " (a copy.deepcopy of the configured handler)" if res.get("deep") else "", name,
+                           (" (the configured handler restored through dill, as resume.py does)" if res.get("deep_kind") == "dill" else
+                            " (a copy.deepcopy of the configured handler)") if res.get("deep") else "", name,
                            b2f(c["res"]), b2f(c["ref"])), None
     # --- glue: separations are minimum-image vectors between the EVENT positions; charges in leaf-unit order
     m = check_glue(cfg, case, res, lin, active, composite)
